@@ -54,6 +54,10 @@ def gen(rng: random.Random, tier: str, idx: int) -> dict:
         ops = [first]
         if rng.random() < 0.5:
             ops.append({"kind": "first_append", "tag": f"g{i}", "schema": rng.choice([None, None, "A"])})
+        elif rng.random() < 0.15:
+            # a schema-less append of records without any field: must raise (no schema available / required field
+            # missing), never commit a column-less file
+            ops.append({"kind": "first_append", "tag": f"e{i}", "schema": None, "fieldless": True})
         ops.append({"kind": "observe"})
         actors.append({"name": f"c{i}", "proc": f"p{i}", "ops": ops})
     return {"backend": backend, "init": init, "actors": actors, "policy": common.gen_policy(rng, 600), "faults": []}
@@ -179,7 +183,7 @@ def execute(plan: dict, scratch: str, replay: Optional[dict] = None) -> dict:
                 if h["outcome"] == "raise" and h.get("exc") == "ValueError" and st is not None:
                     passed = h["op"].get("schema")
                     persisted = st.schema_fields
-                    if not passed and persisted:
+                    if not passed and persisted and not h["op"].get("fieldless"):
                         V.append({"clause": "I.append_rejected",
                                   "msg": f"[{cfg}] {h['actor']} schema-less append rejected although the table has a persisted schema: {(h.get('msg') or '')[:160]}"})
                     if passed and passed != "Ar" and (not persisted or persisted == world.SCHEMAS[passed]):
